@@ -19,7 +19,7 @@ Complaints(r) ==
        \cup (IF r.outcome2 # "code" THEN {"described-text-does-not-compile"}
              ELSE (IF r.vec2 # r.vec1 THEN {"described-validator-differs"} ELSE {})
                   \cup (IF r.h2 # r.h1 THEN {"described-hash256-differs"} ELSE {})
-                  \cup (IF r.desc2 # r.desc1 THEN {"describe-not-a-fixpoint"} ELSE {}))
+                  \cup (IF r.desc2n # r.desc1n THEN {"describe-not-a-fixpoint"} ELSE {}))
 
 Contains(s, sub) == \E i \in 1..(Len(s) - Len(sub) + 1) : SubSeq(s, i, i + Len(sub) - 1) = sub
 \* Known deviation "tplOneOfDescribe": a template literal with an alternation, `a${"b" | "bc"}`, is described as
